@@ -8,6 +8,24 @@ COQ = os.path.join(ROOT, 'coq')
 
 BASE_IMPORTS = ['Base.Prelude', 'Base.Prog', 'Model.Io', 'Model.Tables', 'Model.LzBuffer', 'Model.RangeDec', 'Model.Lzma']
 
+def coq_unfolded(imports, defs):
+    """statement text of Definitions `X : Prop`, unfolded one level (Eval cbv beta delta [X] in X)"""
+    imports = BASE_IMPORTS + [i for i in imports if i not in BASE_IMPORTS]
+    res = {}
+    for d in defs:
+        src = 'From LZ Require Import %s.\nSet Printing Width 118.\nSet Printing Depth 1000.\nEval cbv beta delta [%s] in %s.\n' % (' '.join(imports), d, d)
+        with tempfile.NamedTemporaryFile('w', suffix='.v', delete=False, dir='/tmp') as f:
+            f.write(src); path = f.name
+        out = subprocess.run('coqc -q -Q %s LZ %s' % (COQ, path), shell=True, stdout=subprocess.PIPE, stderr=subprocess.STDOUT).stdout.decode()
+        os.unlink(path)
+        for ext in ('.vo', '.vok', '.vos', '.glob'):
+            try: os.unlink(path[:-2] + ext)
+            except OSError: pass
+        m = re.match(r'\s*= (.*)\n     : Prop\s*$', out, re.S)
+        if not m: raise SystemExit('could not unfold %s\n%s' % (d, out[-2000:]))
+        res[d] = '\n'.join(l[7:] if l.startswith('       ') else l for l in m.group(1).rstrip().split('\n'))
+    return res
+
 def coq_statements(imports, lemmas):
     imports = BASE_IMPORTS + [i for i in imports if i not in BASE_IMPORTS]
     src = 'From LZ Require Import %s.\nSet Printing Width 118.\nSet Printing Depth 1000.\n' % ' '.join(imports)
@@ -33,15 +51,17 @@ def coq_statements(imports, lemmas):
 def build(pid, title, imports, table, append_to=None):
     if not append_to:
         imports = BASE_IMPORTS + [i for i in imports if i not in BASE_IMPORTS]
-    sts = coq_statements(imports, [t[1] for t in table])
+    sts = coq_statements(imports, [t[1] for t in table if len(t) <= 4]) if any(len(t) <= 4 for t in table) else {}
     out = []
     if not append_to:
         out += ['(* %s - %s' % (pid, title), '   This file only pins statements; the proofs live in the files named below. *)',
                 'From LZ Require Import %s.' % ' '.join(imports), '']
     else:
         out += ['', 'From LZ Require Import %s.' % ' '.join(imports), '']
-    for name, lemma, where, comment in table:
-        st = sts[lemma.split('.')[-1]]
+    unf = coq_unfolded(imports, [t[4] for t in table if len(t) > 4])
+    for t in table:
+        name, lemma, where, comment = t[:4]
+        st = unf[t[4]] if len(t) > 4 else sts[lemma.split('.')[-1]]
         st = '\n'.join('  ' + l for l in st.split('\n'))
         out.append('(* %s   [proved as %s in %s] *)' % (comment, lemma, where))
         out.append('Theorem %s :\n%s.' % (name, st))
